@@ -89,7 +89,7 @@ def summarize(result):
     )
 
 
-def patch_text(isa, lines, fmt="elf"):
+def patch_text(isa, lines, fmt="elf", intel=False):
     out = []
     for ln in lines:
         if "sec" in ln:
@@ -115,12 +115,14 @@ def patch_text(isa, lines, fmt="elf"):
             t = ln.get("t")
             if t is not None and ln.get("add"):
                 t = f"{t}{ln['add']:+d}"
-            out.append(vocab.asm_text(isa, ln["k"], t, ln.get("imm")))
+            out.append(vocab.asm_text(isa, ln["k"], t, ln.get("imm"),
+                                      intel=intel))
     return "\n".join(out) + "\n"
 
 
 def make_patch(isa, spec, eid, rec):
     from gtirb_rewriting import Constraints, Patch
+    from gtirb_rewriting.assembly import X86Syntax
 
     cons = spec.get("cons") or {}
 
@@ -131,7 +133,9 @@ def make_patch(isa, spec, eid, rec):
                 clobbers_registers=set(cons.get("clobbers", [])),
                 scratch_registers=cons.get("scratch", 0),
                 align_stack=cons.get("align", False),
-                preserve_caller_saved_registers=cons.get("caller", False)))
+                preserve_caller_saved_registers=cons.get("caller", False),
+                **({"x86_syntax": X86Syntax.INTEL} if spec.get("intel")
+                   else {})))
             self.eid = eid
 
         def __str__(self):
@@ -146,12 +150,15 @@ def make_patch(isa, spec, eid, rec):
                 if rec.fault_kind == "raise":
                     raise InjectedFault(f"callback {rec.callbacks}")
                 return "this is not assembly $$$\n"
-            text = patch_text(isa, spec["lines"])
+            text = patch_text(isa, spec["lines"],
+                              intel=bool(spec.get("intel")))
             if cons.get("scratch"):
                 # make the output depend on which registers were handed out
                 regs = ctx.scratch_registers
                 tmpl = {"x64": "movq %{r}, %{r}\n", "ia32":
                         "movl %{r}, %{r}\n", "arm64": "mov {r}, {r}\n"}[isa]
+                if spec.get("intel"):
+                    tmpl = "mov {r}, {r}\n"
                 text += "".join(tmpl.format(r=r) for r in regs)
             return text
     return ModelPatch()
